@@ -74,20 +74,25 @@ impl NodeHandle {
         self.dispose_children();
         let mut nodes = self.1.nodes.borrow_mut();
         // Release memory.
-        if let Some(this) = nodes.remove(self.0) {
+        if let Some(mut this) = nodes.remove(self.0) {
             // Remove self from all dependencies.
-            for dependent in this.dependents {
+            for dependent in std::mem::take(&mut this.dependents) {
                 // dependent might have been removed if it is a child node.
                 if let Some(dependent) = nodes.get_mut(dependent) {
                     dependent.dependencies.retain(|&mut id| id != self.0);
                 }
             }
             // Remove self from the subscriber lists of everything this node depends on.
-            for dependency in this.dependencies {
+            for dependency in std::mem::take(&mut this.dependencies) {
                 if let Some(dependency) = nodes.get_mut(dependency) {
                     dependency.dependents.retain(|&id| id != self.0);
                 }
             }
+            // Drop the value, the callback and the context values of the node only once the borrow
+            // has ended: their destructors may use the reactive system (e.g. a suspense task guard
+            // stored in a signal releases its counter).
+            drop(nodes);
+            drop(this);
         }
     }
 
@@ -115,10 +120,15 @@ impl NodeHandle {
             Self(child, self.1).dispose();
         }
 
-        // Clear context values. The node may have been disposed by one of its own cleanups.
-        if let Some(node) = self.1.nodes.borrow_mut().get_mut(self.0) {
-            node.context.clear();
-        }
+        // Clear context values. The node may have been disposed by one of its own cleanups. The
+        // values are dropped after the borrow has ended (see `dispose`).
+        let context = self
+            .1
+            .nodes
+            .borrow_mut()
+            .get_mut(self.0)
+            .map(|node| std::mem::take(&mut node.context));
+        drop(context);
     }
 
     /// Run a closure under this reactive node.
